@@ -130,6 +130,7 @@ def gen(rng, n, want_reuse, with_time=False):
             ev.append("sclose %d" % k)
             if k in owners:
                 uid, a = owners[k]
+                m.touch(uid, a)      # closeConnection validates (id, address): a successor at the same address is refreshed
                 if uid in m.live and m.live[uid][0] == k:
                     m.close(uid, a)
             closes += 1
@@ -163,6 +164,15 @@ SWEEP_REUSE = ["t 0", "ver 1 1", "t %d" % (10 * NS), "cls 0 1", "t %d" % (20 * N
 SWEEP_IDLE = ["t 0", "ver 1 1", "ver 2 1", "t %d" % (200 * NS), "pkt 1 2 65535 0 0 #", "sweep %d" % (301 * NS),
               "pkt 0 1 65535 0 0 #", "pkt 1 2 65535 0 0 #"]
 
+# the listener's own sweep goroutine, in real time (thorough tier; about two minutes): history time is mapped 1/40 by the harness.
+# Session A (slot 0) is closed and its slot re-used by C; D is left idle; B and C are kept alive just before each sweep. After the
+# first sweep A's retired entry and D have expired; C and B must still be served and C's data must be intact.
+REAL_SWEEP = ["t 0", "ver 1 1", "ver 2 1", "ver 3 1", "t %d" % (10 * NS), "cls 0 1", "t %d" % (20 * NS), "ver 4 1", "pkt 0 4 65535 1 0 #4041",
+              "t %d" % (2300 * NS), "pkt 0 4 65535 0 0 #", "pkt 1 2 65535 0 0 #", "sweep %d" % (2400 * NS),
+              "pkt 0 4 65535 1 1 #4243", "pkt 1 2 65535 0 0 #", "pkt 2 3 65535 0 0 #", "pkt 0 1 65535 0 0 #", "sread 3",
+              "t %d" % (4700 * NS), "pkt 0 4 65535 0 0 #", "pkt 1 2 65535 0 0 #", "sweep %d" % (4800 * NS), "pkt 0 4 65535 1 2 #44",
+              "pkt 1 2 65535 0 0 #", "sread 3", "sread 0", "sread 1", "sread 2"]
+
 CORPUS_LATE_CLOSE = ["ver 2 1", "ver 1 1", "cls 1 1", "ver 1 1", "sclose 1", "pkt 1 1 65535 0 0 #", "sread 2"]
 
 
@@ -177,6 +187,8 @@ def cases(tier, rng):
         c = mk(h, 2, 0, 1, name)
         c["model_only"] = True
         cs.append(c)
+    if tier == "thorough":
+        cs.append(mk(REAL_SWEEP, 4, 0, 1, "real-sweep"))
     for i in range(1500 if tier == "thorough" else 150):
         ev, n, sp, cl = gen_sweep(rng, rng.range(3, 40))
         c = mk(ev, n, sp, cl, "sweep-random")
@@ -238,6 +250,9 @@ def oracle(case, impl):
     retired = {}   # uid -> (serial, addr)
     nconn = 0
     expect_live = set()
+    info = {}      # serial -> (uid, addr)
+    sent = {}      # serial -> payloads its own peer sent to it while it was live, in order
+    queued = {}    # serial -> payloads the server side queued on it, in order
     for (e, a), now in zip(zip(evs, ans), times):
         k = e[0]
         if k in ("ver", "down"):
@@ -259,6 +274,8 @@ def oracle(case, impl):
                 if uid in live:
                     out.append(("duplicate-id", "a new session got identifier %d, which a live session holds" % uid))
                 live[uid] = (nconn, int(e[1]))
+                info[nconn] = (uid, int(e[1]))
+                sent[nconn] = []
                 last[nconn] = now
                 expect_live.add(nconn)
                 nconn += 1
@@ -267,6 +284,8 @@ def oracle(case, impl):
             owner = live.get(uid)
             if owner is not None and owner[1] == addr:
                 last[owner[0]] = now
+                if k == "pkt" and e[4] == "1" and a[0] == "p":
+                    sent[owner[0]].append(bytes.fromhex(e[6][1:]))
             if owner is not None and owner[1] != addr:
                 if a[0] != "e":
                     out.append(("spoof-accepted", "%s for live id %d from foreign address %d was answered %s" % (k, uid, addr, a[0])))
@@ -274,23 +293,30 @@ def oracle(case, impl):
                 out.append(("dead-id-served", "%s for id %d, which no live session holds, was answered %s" % (k, uid, a[0])))
             if a[0] == "p" and a[3] != "#":
                 data = bytes.fromhex(a[3][1:])
-                if owner is None or owner[1] != addr or any((b >> 4) != owner[0] % 14 for b in data):
+                if owner is None or owner[1] != addr or not from_own(data, queued.get(owner[0], [])):
                     out.append(("stream-leak", "downstream bytes %s were handed to (%d, addr %d)" % (a[3], uid, addr)))
             if k == "cls" and a[0] == "ok" and owner is not None and owner[1] == addr:
                 retired[uid] = live.pop(uid)
                 expect_live.discard(owner[0])
         elif k == "sclose":
             s = int(e[1])
+            if s in info:
+                # closeConnection validates (id, address) first: whichever live session holds that slot at that address is refreshed
+                uid0, addr0 = info[s]
+                if uid0 in live and live[uid0][1] == addr0:
+                    last[live[uid0][0]] = now
             for uid, (ser, addr) in list(live.items()):
                 if ser == s:
-                    last[ser] = now
                     retired[uid] = live.pop(uid)
                     expect_live.discard(s)
+        elif k == "sq":
+            if a[0] == "ok":
+                queued.setdefault(int(e[1]), []).append(bytes.fromhex(e[2][1:]))
         elif k == "sread":
             s = int(e[1])
             if a[0] == "r" and a[1] != "#":
                 data = bytes.fromhex(a[1][1:])
-                if any((b >> 4) != s % 14 for b in data):
+                if not from_own(data, sent.get(s, [])):
                     out.append(("stream-injection", "session %d read bytes %s that its own peer never sent" % (s, a[1])))
     # no collateral termination: exactly the sessions that were not closed are still live
     if fin and fin[0] == "live":
@@ -304,6 +330,20 @@ def oracle(case, impl):
             if extra:
                 out.append(("zombie", "sessions %r are still live after their close" % extra))
     return out
+
+
+def from_own(data, payloads):
+    """data is a concatenation of a subsequence of the payloads the session's own peer sent (duplicates and refused packets drop out)"""
+    reach = {0}
+    for pl in payloads:
+        if not pl:
+            continue
+        nxt = set(reach)
+        for r in reach:
+            if data[r:r + len(pl)] == pl:
+                nxt.add(r + len(pl))
+        reach = nxt
+    return len(data) in reach
 
 
 def shrink(case):
